@@ -447,6 +447,7 @@ type vfWorld struct {
 	holdAll  bool      // E-NET: hold every frame between real nodes
 	heldQ    []*vfPipe // pipes with held frames, in arrival order
 	blockedN map[[2]peer.ID]int
+	pairGen  map[[2]peer.ID]int
 }
 
 func newVfWorld() *vfWorld {
@@ -618,8 +619,14 @@ func (w *vfWorld) openStream(ctx context.Context, from, to peer.ID, protos []pro
 	}
 	w.nstream++
 	n := w.nstream
-	ab := newVfPipe(fmt.Sprintf("s%d:%s>%s", n, vfName(from), vfName(to)))
-	ba := newVfPipe(fmt.Sprintf("s%d:%s>%s", n, vfName(to), vfName(from)))
+	if w.pairGen == nil {
+		w.pairGen = map[[2]peer.ID]int{}
+	}
+	w.pairGen[k]++
+	gen := w.pairGen[k]
+	// labels are independent of the global order in which goroutines happened to open streams
+	ab := newVfPipe(fmt.Sprintf("%s>%s#%d", vfName(from), vfName(to), gen))
+	ba := newVfPipe(fmt.Sprintf("%s>%s#%d(back)", vfName(from), vfName(to), gen))
 	_, fromReal := w.eps[from].(*vfHost)
 	_, toReal := remote.(*vfHost)
 	if w.holdAll && fromReal && toReal {
